@@ -13,6 +13,7 @@ import CambrianModel.Lemmas.JsonLemmas
 import CambrianModel.Lemmas.ParseLemmas
 import CambrianModel.Lemmas.MutGenLemmas
 import CambrianModel.Lemmas.CrossGenLemmas
+import CambrianModel.Lemmas.AlgRun
 namespace Cambrian.Props
 open Cambrian Cambrian.Ctl
 
@@ -64,6 +65,17 @@ theorem C01_run (spec : SNode) (hs : wf spec = true) (c : Cfg) (ss : Nat) (v0 d 
     (sd id : Nat) (v : VNode) (hstart : Act.start sd id v ∈ (run c ss (some v0) d chs evs).2) :
     conf spec v = true :=
   (run_confInv spec hs c ss v0 d hv0 chs hchs evs hlegal).startsOk sd id v hstart
+
+/-- The CLOSED model - controller, algorithm core and the code-shaped operators `crossGen` / `mutGen` - needs no
+    assumption about the acceptors: if every offspring is what the algorithms compute from the ranked population
+    (`AlgFrom`: for some consistent oracles, i.e. for every random stream), each parameter set passed to the objective
+    function conforms to the spec, in every generation, for every schedule, sample size and concurrency. -/
+theorem C01_run_alg (spec : SNode) (hs : wf spec = true) (c : Cfg) (ss : Nat) (v0 d : VNode)
+    (hv0 : conf spec v0 = true) (chs : Nat → Algo.Choice VNode) (hchs : AlgInit spec v0 chs)
+    (evs : List (Ev VNode)) (halg : AlgFrom spec c (init c ss (some v0) d chs).1 evs)
+    (sd id : Nat) (v : VNode) (hstart : Act.start sd id v ∈ (run c ss (some v0) d chs evs).2) :
+    conf spec v = true :=
+  (run_confInv_alg spec hs c ss v0 d hv0 chs hchs evs halg).startsOk sd id v hstart
 
 /-- ... and so does the best-seen value finally reported (it is a member of the population). -/
 theorem C01_report (spec : SNode) (hs : wf spec = true) (c : Cfg) (hnc : 0 < c.nc) (ss : Nat) (v0 d : VNode)
